@@ -23,7 +23,7 @@ def gen_tasks(tier, seed):
     for nums, tot, mult in curated:
         for wt in ("int", "float"):
             tasks.append({"kind": "genset", "numbers": nums, "total": tot, "mult": mult, "wt": wt, "partition": None})
-    n = 14 if tier == "quick" else 120
+    n = 14 if tier == "quick" else 1500
     for _ in range(n):
         k = rng.randint(1, 3)
         gens = [rng.randint(1, 5) for _ in range(k)]
@@ -53,7 +53,7 @@ def gen_tasks(tier, seed):
     for nums, tot, parts in (([5], 10, [[1, 9], [2, 8]]), ([1, 4, 6, 9], 10, [[5, 5], [3, 7]]), ([3], 10, [[1, 9], [2, 8], [4, 6]]), ([2, 8, 10], 10, [[1, 9], [3, 7]])):
         for wt in ("int", "float"):
             tasks.append({"kind": "genset", "numbers": nums, "total": tot, "mult": 1, "wt": wt, "partition": parts})
-    for _ in range(6 if tier == "quick" else 60):
+    for _ in range(6 if tier == "quick" else 400):
         gens = [rng.randint(1, 4) for _ in range(rng.randint(3, 4))]
         tot = sum(gens)
         parts = []
@@ -64,7 +64,7 @@ def gen_tasks(tier, seed):
         x = sum(rng.sample(gens, rng.randint(1, 2)))
         nums = sorted({x, tot - x} - {0}) if rng.random() < 0.7 else [x]
         tasks.append({"kind": "genset", "numbers": nums, "total": tot, "mult": 1, "wt": "int", "partition": parts})
-    m = 16 if tier == "quick" else 150
+    m = 16 if tier == "quick" else 1500
     for _ in range(m):
         u = list(range(rng.randint(1, 5)))
         subsets = []
@@ -104,15 +104,17 @@ def genset_valid(task, sol):
     """plain check: sol (list of numbers) sums to total, every number is a sub-multiset sum with multiplicities <= mult,
     partition constraints can be realised"""
     vals = [Fraction(v) for v in sol]
-    if any(v < 0 for v in vals):
+    # float weights: equalities hold within the solver's feasibility tolerance (values such as 2.9999999999999987 are legal answers)
+    tol = Fraction(0) if task["wt"] == "int" else Fraction(1, 10 ** 6)
+    if any(v < -tol for v in vals):
         return "negative value"
-    if sum(vals) != Fraction(task["total"]):
+    if abs(sum(vals) - Fraction(task["total"])) > tol:
         return f"values sum to {float(sum(vals))}, not total {task['total']}"
     sums = set()
     for xs in itertools.product(range(task["mult"] + 1), repeat=len(vals)):
         sums.add(sum(x * v for x, v in zip(xs, vals)))
     for n in task["numbers"]:
-        if Fraction(n) not in sums:
+        if not any(abs(Fraction(n) - x) <= tol for x in sums):
             return f"number {n} is not a sub-multiset sum of {sol} with multiplicity <= {task['mult']}"
     for part in task["partition"] or []:
         ok = False
@@ -120,7 +122,7 @@ def genset_valid(task, sol):
             tot = [Fraction(0)] * len(part)
             for v, a in zip(vals, assign):
                 tot[a] += v
-            if tot == [Fraction(p) for p in part]:
+            if all(abs(t_ - Fraction(p)) <= tol for t_, p in zip(tot, part)):
                 ok = True
                 break
         if not ok:
